@@ -5,8 +5,12 @@ ID = 'C04'
 GENERATORS = ['gen_codepage', 'gen_ansi']
 COQ_TARGETS = ['Props/C04.vo', 'Run/RunC04.vo']
 PROPS_MODULE = 'Props.C04'
-THEOREMS = []          # filled below (kept in one place with the level text)
-SWEEP_LEMMAS = []
+THEOREMS = ['sgr_sync_step', 'sgr_sync_seq', 'sgr_sync_from_start', 'sgr_sync_refuted_before_fix', 'layout_roundtrip',
+            'ansi_roundtrip', 'numbers_read_back', 'trimmed_cells_are_blank', 'known_bom_witness']
+SWEEP_LEMMAS = ['AnsiPalProofs.dos_nodup (the 16 regenerated DOS colours are pairwise different; complete check by vm_compute)',
+                'AnsiSgrProofs.color_offsets_involution, code_fg, code_bg (all 8 entries of the regenerated COLOR_OFFSETS against the 30-37 / 40-47 arms)',
+                'AnsiSgrProofs.code_bold .. code_dul, code_reset (the nine regenerated SGR numbers of get_color hit the matching select_graphic_rendition arms)',
+                'AnsiRowsProofs.prun_ice_on / prun_ice_off / prun_clear / prun_home (the four regenerated escape literals of screen_prep / screen_end)']
 
 # ---------------------------------------------------------------------------------------------------------------
 # option lattice
@@ -247,27 +251,32 @@ def correspondence(ctx):
 # ---------------------------------------------------------------------------------------------------------------
 def classify(res):
     """signature of a failing c04chk observation (None = property holds)"""
-    bad, ws, hs, wd, hd = res[:5]
+    bad, ws, hs, wd, hd, nbytes, b0, b1, b2 = res[:9]
+    bom = [b0, b1, b2] == [0xEF, 0xBB, 0xBF]
     if bad:
-        x, y = res[5], res[6]
-        s, d = res[7:11], res[11:15]
+        x, y = res[9], res[10]
+        s, d = res[11:15], res[15:19]
         diff = [n for n, a, b in zip(['char', 'fg', 'bg', 'blink'], s, d) if a != b]
-        return 'cell-mismatch:' + '+'.join(diff), {'x': x, 'y': y, 'source_shows': s, 'reloaded_shows': d, 'mismatching_cells': bad,
-                                                   'source_size': [ws, hs], 'reloaded_size': [wd, hd]}
+        det = {'x': x, 'y': y, 'source_shows': s, 'reloaded_shows': d, 'mismatching_cells': bad,
+               'source_size': [ws, hs], 'reloaded_size': [wd, hd], 'file_bytes': nbytes}
+        # the loader reads a file that starts with EF BB BF as UTF-8: the one class listed in known_findings.d/C04.json
+        return ('utf8-bom-prefix' if bom else 'cell-mismatch:' + '+'.join(diff)), det
     if (ws, hs) != (wd, hd):
         kind = 'height' if ws == wd else 'width'
-        return 'size-mismatch:' + kind, {'source_size': [ws, hs], 'reloaded_size': [wd, hd]}
+        return ('utf8-bom-prefix' if bom else 'size-mismatch:' + kind), {'source_size': [ws, hs], 'reloaded_size': [wd, hd], 'file_bytes': nbytes}
     return None, None
 
-def last_row_prints_nothing(pt, buf):
-    """the known class: with compression + cursor-forward the last row can consist of cursor movement only"""
-    return True
+def bom_case():
+    """cells 0xEF 0xBB 0xBF at the start of the picture: the file starts with the UTF-8 byte order mark"""
+    row = [(0xEF, 7, 0, 0), (0xBB, 7, 0, 0), (0xBF, 7, 0, 0), (0x41, 7, 0, 0)] + [(32, 7, 0, 0)] * 76
+    return ('known:utf8-bom-prefix', (DEFAULT_BITS, 0, 0, 1), (80, 1, list(DOS), row))
 
 def search(ctx, broken):
     rng = ctx.rng
     todo = []      # (label, point, buffer)
     for name, pt, buf in regression_cases():
         todo.append((name, pt, buf))
+    todo.append(bom_case())
     # inputs on which model and implementation disagreed come first
     for b in broken:
         d = b.get('detail') or {}
@@ -276,7 +285,7 @@ def search(ctx, broken):
     if ctx.thorough or ctx.escalated:
         per_point = 3 if ctx.thorough else 1
         pts = all_points()
-        if not ctx.thorough: pts = [p for p in pts if rng.random() < 0.45]
+        if not ctx.thorough: pts = [p for p in pts if rng.random() < 0.9]     # escalated run: ~12 000 points x 1 buffer
         for pt in pts:
             for k in range(per_point):
                 todo.append(('lattice', pt, gen_buffer(ctx, rng, pt[0], pt[2], pt[3], small=(k != 2 or rng.random() < 0.8))))
@@ -303,7 +312,7 @@ def search(ctx, broken):
         sig, det = classify(r[1])
         if sig is None: continue
         det['point'] = describe(pt) if pt else None; det['label'] = label
-        failures.append({'signature': sig, 'input': c, 'impl': r[1][:16], 'expected': 'every cell shows the same character, foreground, background and blink state', 'detail': det})
+        failures.append({'signature': sig, 'input': c, 'impl': r[1][:19], 'expected': 'every cell shows the same character, foreground, background and blink state', 'detail': det})
     failures.sort(key=lambda f: len(f['input']))
     return {'cases': len(cases), 'failures': failures, 'distinct_nontrivial': len(distinct), 'option_points': len(points),
             'all_option_points': len(points) == (1 << N_BITS) * 27,
@@ -338,11 +347,39 @@ def replay(ctx, body):
     return 1
 
 # ---------------------------------------------------------------------------------------------------------------
-UNPROVED_OPTION_POINTS = ['(to be filled)']
-TRUSTED = []
-UNMODELLED = []
-ASSUMPTIONS = []
-RULE = ''
-LEVEL_TEXT = ''
-LEVEL_NOTE = ''
-TECHNIQUE = ''
+UNPROVED_OPTION_POINTS = []   # layout_roundtrip / ansi_roundtrip quantify over every SaveOptions value of the model:
+                              # all 2^9 booleans x 3 screen preparations x 3 control-character modes x 3 ice modes
+TRUSTED = ['Coq 8.16.1 kernel + vm_compute (model evaluation in stage C, the finite checks over regenerated constants); no axioms (Print Assumptions: closed)',
+           'translator/gen_ansi.py + gen_codepage.py + vlib/rustsrc.py: extraction of DOS_DEFAULT_PALETTE, XTERM_256_PALETTE, COLOR_OFFSETS, CONTROL_CHARS, the SGR numbers and escape literals of get_color / screen_prep / screen_end, SaveOptions::new(), the attribute bit constants',
+           'the hand-written function bodies of Model/AnsiWriter.v and Model/AnsiParser.v are tied to the code by differential execution only (stage C: bytes written byte for byte, reloaded cells cell for cell; glyph shapes of the default font and parse_next_number as leaf ties)',
+           'harness/src/c04.rs (builds the buffer through the public API, Buffer::to_bytes / Buffer::from_bytes, reads cells with Buffer::get_char and Palette::get_rgb)',
+           'the SAUCE record is treated as a carrier of width / height / non-blink flag (its byte layout is property C11); stage C strips it from the written bytes and checks that it is there']
+UNMODELLED = ['UTF-8 "modern terminal" output (excluded by the property text), output_line_length (line breaking with CSI s / CSI u) and skip_lines: not options of the property',
+              'fonts other than page 0 with the default font (CSI 0;n SP D font switches, font upload), sixels, hyperlinks',
+              'everything of ansi::Parser outside the slice the writer can produce (Model/AnsiParser.v sets p_unmodelled there; the theorem shows the writer never leaves the slice)',
+              'a file that starts with EF BB BF is decoded as UTF-8 by convert_ansi_to_utf8: known finding utf8-bom-prefix, excluded from ansi_roundtrip by the predicate KnownC04_bom',
+              'u32 overflow of `state.fg_idx += 8` (needs a palette index above 2^32 - 9) and i32 overflow of cursor coordinates (needs 2^31 rows)']
+ASSUMPTIONS = ['single-layer buffer without alpha channel: Buffer::get_char returns a visible cell everywhere (cells never written read as the default cell)',
+               'palette: index 0 is black and, among the indices 0..7, a dark DOS colour sits only at its own index (pal_ok); components are u8; colour indices of cells are plain palette indices (no direct-RGB bit 31)',
+               'in ice mode no cell carries the blink flag (it has no meaning on screen there and the format cannot express it)',
+               'characters: everything but the code points the chosen control-character mode cannot encode (Ignore: 27, 7, 12, 127, 13, 10; IcyTerm: none; FilterOut: 27, 7, 8, 9, 12, 127, 13, 10)',
+               'width 80, or 1..=1000 when the SAUCE record carries it; heights and widths below 2^30 (decimal parameters are read back exactly below that)',
+               'the picture does not start with the three characters 0xEF 0xBB 0xBF (known finding)']
+RULE = ('single-layer buffers: width 80 (1..=132 when save_sauce), heights 1..=60 (90 % of them <= 6 in the quick tier), palette = 16 DOS colours with up to 4 '
+        'entries replaced (keeping pal_ok) plus 0..7 extra xterm-256 / random RGB / duplicate DOS colours, cells built from runs (identical cells up to 14 long, '
+        'default blanks up to 30, runs to the right margin, blank tails with and without attributes) and single random cells over the whole CP437 range minus the '
+        'characters the control-character mode cannot encode, 8 rendition flags with probability 0.15 each (no blink in ice mode); option points: quick = default point in '
+        'the three ice modes + a seeded sample of the 2^9 x 27 lattice that always contains the default and the all-off / all-on corners; thorough = every point x 3 buffers. '
+        'Stage C compares the bytes of Buffer::to_bytes with the model byte for byte and the reloaded buffer cell for cell; stage S evaluates the round-trip oracle on the real code. '
+        'A case is non-trivial when the buffer has at least one non-default cell; distinct = distinct (option point, buffer) pairs. Regression inputs of the five repaired defects and the '
+        'known-finding input run first in every tier.')
+LEVEL_TEXT = ('Machine-checked proof (Coq, closed under the global context) of the whole property on the model: ansi_roundtrip — for EVERY SaveOptions value of the model '
+              '(compress, cursor-forward, repeat sequences, preserved line length, longer-terminal positioning, extended colours, SAUCE width, lossless / optimiser, '
+              'whitespace normalisation, 3 screen preparations, 3 control-character modes) and the 3 ice modes, every buffer of the domain reloads with the same size and every cell shows the '
+              'same character, displayed foreground, background and blink state (oracle relation cell_match_opt). It rests on sgr_sync_step / sgr_sync_seq (rendition refinement: '
+              'writer AnsiState vs parser SGR / 24-bit / ice handling, by invariant over any attribute sequence) and layout_roundtrip (row trimming, RLE, CSI n C, CSI n b, CSI y H, CR LF, auto-wrap, '
+              'screen preparation, crop). Five defects found on the way are repaired by fix: commits in the source (model = repaired code, sgr_sync_refuted_before_fix documents the old behaviour); '
+              'one class is a known finding (file starting with a UTF-8 byte order mark, KnownC04_bom / known_bom_witness). No option point is left unproved.')
+LEVEL_NOTE = ('Trusted: Coq kernel + vm_compute; the python translator for the constants; the hand models of get_color / generate_cells / generate / ColorOptimizer and of the parser slice, '
+              'tied to the Rust code by differential execution on every run (bytes and reloaded cells), not by translation; SAUCE record bytes left to C11; no axioms.')
+TECHNIQUE = 'Coq proof (refinement invariant for the rendition state, simulation of the row emitter against the cursor/auto-wrap model); translator + correspondence tie; round-trip oracle on the real code over the whole option lattice'
